@@ -100,6 +100,11 @@ CLAIMED["C09"] = ("map-order lint incl. no-callback-in-map-range (E8), predicate
          "go/ssa model; map and slice semantics assumed; loops unrolled",
          "DESIGN.md §3 C09")
 
+CLAIMED["C01"] = ("predicated path enumeration for registration/stamping/wiring order (E4), bound-method and closure provenance for callback wiring (E1), data-dependence slice for the CLI request text (E7 sibling rule), oneof / notification-type exhaustiveness (E7), shared relay clauses (queue key forgotten on dequeue, strict delete condition)",
+         "Static, all-paths necessary conditions of the end-to-end relay: every managed target is first registered with the cache under the same name; the manager's callbacks are the one cache's methods and its Update closure stamps the target into a non-nil prefix on every path before Cache.GnmiUpdate; the cache's feed is the registered Subscribe server's Update, installed before serving and before targets start; all four CLI execute* functions parse the text returned by protoRequestFromFlags; every SubscribeResponse kind / client notification type has an arm, updates and deletes are all forwarded, Update->Tree.Add, Delete->Tree.Delete. The rules found the never-registered-targets and ignored -proto_file defects (now fixed) and guard them. End-to-end equality of the client view with the target state is NOT decided.",
+         "go/ssa model of the two cmd packages and the client decode path; grpc and flag parsing not analysed",
+         "DESIGN.md §3 C01")
+
 NA_REASON = {}
 DEFAULT_NA = "check not built yet in this round (static rules designed in DESIGN.md section 3); not claimed until the rule runs"
 
